@@ -10,6 +10,7 @@ import (
 	"os"
 	"strings"
 	"sync"
+	"sync/atomic"
 	"testing"
 	"testing/cryptotest"
 	"testing/synctest"
@@ -57,7 +58,8 @@ type World struct {
 	NoSkew  bool
 	// CIDLenHint, if set, tells wire parsers which CID length to assume for datagrams emitted by an address.
 	CIDLenHint func(src Addr) int
-	closers []func()
+	closers    []func()
+	onEmit     atomic.Pointer[func(d *Datagram)]
 }
 
 // Run executes body inside a fresh bubble with the given seed.
@@ -350,11 +352,10 @@ func (c *MemConn) WriteTo(p []byte, addr net.Addr) (int, error) {
 	if !ok {
 		dst = Addr(addr.String())
 	}
-	if SchedPoint != nil {
-		SchedPoint("Emit", c) // E2: an emission is observable, so it is a scheduling point of its own
-	}
 	d := c.w.emit(c.addr, dst, p)
-	if h := c.w.OnEmit; h != nil {
+	if hp := c.w.onEmit.Load(); hp != nil {
+		(*hp)(d)
+	} else if h := c.w.OnEmit; h != nil {
 		h(d)
 	}
 	return len(p), nil
@@ -488,6 +489,16 @@ func (w *World) Ops() []*Op {
 	w.mu.Lock()
 	defer w.mu.Unlock()
 	return append([]*Op(nil), w.ops...)
+}
+
+// SetOnEmit installs (nil: removes) the emission hook in a way that is safe against concurrently emitting
+// library goroutines (use this rather than assigning OnEmit when the test runs under the race detector).
+func (w *World) SetOnEmit(f func(d *Datagram)) {
+	if f == nil {
+		w.onEmit.Store(nil)
+		return
+	}
+	w.onEmit.Store(&f)
 }
 
 // SchedPoint, when set (by the E2 layer), is called before every observable harness-side action of a
